@@ -15,16 +15,16 @@ NOTE_PARTIAL = ("the theorems in coq/fs/%s.v are about named mechanisms of the l
 PROOF_LEVEL = {
     "C11": "C11_history_model is a theorem about the layer-B model: in any history run with ONE device fault armed at any device-call index, the calls before the one that hits it are unaffected, and that call returns Err (never Ok / fabricated / Panic / OutOfFuel), keeps lock and handle tables (CloseFile consumes its handle), leaves a crash-sound medium with unique names and every non-targeted file intact, and - for calls that never write - a state of the invariant so that the retry is a fault-free call; every handle can be closed afterwards. Proved per operation (step_fault, 26 operations) from lockstep_step (the armed run agrees with the fault-free run up to the armed device call). Several faults per history and arbitrary calls after a fault are covered at run time only: this check injects a fault at every device-call index of every script and random multi-fault sequences, and judges the implementation with the python oracle (error reported, not wedged, retry answers, no duplicate names, bystanders intact)",
     "C01": "C01_history_model is a theorem about the layer-B model: for any history of API calls (all 26 operations interleaved, any number of files, every outcome) an executable byte-array spec predicts every read/length/offset/eof/seek/flush/close result and ends with the API's view of every file, position by position (writes splice, truncation empties, append starts at the end, one key per write = isolation); step_content proved per operation; D23 (clip at 4 GiB - 1) is encoded in the spec as the crate behaves and recorded as a finding. The run-time oracle replays the byte-array model on the implementation's results",
-    "C02": "C02_history_model / C02_flushed_stays_model / C02_untouched_history_model are theorems about the layer-B model: what a fresh mount of the raw medium shows (disk_view, a function of the raw disk) at the slot of a flushed/closed file is exactly the API's view at the flush - name, attribute, creation time, modification time = rounded clock of the last write, bytes - until a later call modifies that file; untouched files and untouched raw directory slots are unchanged through any history. Recorded findings: D24 (zero creation-date fields re-encoded) and D29 (0xE5 names). The run-time oracle re-reads the implementation's medium with an independent FAT reader",
+    "C02": "C02_drop_is_close (impl Drop for File = a close whose result is discarded: same state, same medium, the flush relation of CloseFile) and C02_history_model / C02_flushed_stays_model / C02_untouched_history_model are theorems about the layer-B model: what a fresh mount of the raw medium shows (disk_view, a function of the raw disk) at the slot of a flushed/closed file is exactly the API's view at the flush - name, attribute, creation time, modification time = rounded clock of the last write, bytes - until a later call modifies that file; untouched files and untouched raw directory slots are unchanged through any history. Recorded findings: D24 (zero creation-date fields re-encoded) and D29 (0xE5 names). The run-time oracle re-reads the implementation's medium with an independent FAT reader",
     "C10": "C10_history is a theorem about the layer-B model: in any history of API calls, the medium after every prefix of the block-write sequence of every call (read off the device log; writes atomic and ordered) satisfies the crash invariant crash_inv (tree over the raw disk, unique names, clean tails, dot entries, chains sound and pairwise disjoint, sub-directories with initialised clusters; residue = lost chains and one stale size), whatever the free clusters held; step_crash proved for all 26 operations and outcomes. The extracted sound decider crash_inv_fast and the independent python checker both run on the implementation's crashed media. Not covered by a theorem: that the mount call itself succeeds on the crashed medium (region theorem: MBR/boot sector unchanged)",
     "C09": "C09_history is a theorem about the layer-B model: a file present on the medium (path, entry, bytes) is present unchanged between calls and on every crashed medium of every later call of any history until a call targets it (op_targets); step_keeps_flushed proved for all 26 operations; with the C02 flush theorem (a successful flush/close puts exactly the API's view on the medium) this is the property for the model. The python oracle replays every prefix of the implementation's write log and re-reads flushed files with an independent reader",
     "C16": "C16_history (mirroring of every FAT copy, truthful-stays-truthful, unknown-stays-unknown, hint unknown or in range - after every call of every history of API calls) and C16_history_flush (the FAT32 information sector after a flush/close of a dirty file holds exactly the in-memory record: the number of free FAT entries when the count was truthful, untouched when unknown) are theorems about the layer-B model; the mount code establishes the hint range (C16_mount_hint_in_range, D40 repaired); no call panics or fails for want of space while a free entry exists whatever record was found at mount (C03_history, PrAlloc/PrCount). Recorded finding: stale-hint-kept",
-    "C03": "C03_history / C03_after_every_call / C03_sound_after_history are theorems about the layer-B model for every history of API calls (all 26 operations, every outcome incl. refusals, DiskFull and NotEnoughSpace half-way failures): the global invariant fs_inv - directory tree over the raw disk, unique names, clean tail after the end marker, dot entries, chains in range / acyclic / end-marked / never through free-reserved-bad entries / pairwise disjoint / long enough for the size, pending chains of open files - holds after every call. Scope stated in the theorems: one mounted volume, no device faults, names outside the recorded class D29, fewer than 2^32 handle generations. The tie to the crate is the trace-exact correspondence; the extracted decider fs_inv_b (sound: fs_inv_b_sound) and the independent python checker both run on the implementation's images",
+    "C03": "C03x_history (the same for the extended alphabet FsExt.xop: + iterate_dir_lfn, Drop of the File / Directory wrappers, Directory::change_dir - whose unwrap is proved unreachable -, the expect()ing File::length/offset/is_eof under the guard that the wrapper's handle is open) and C03_history / C03_after_every_call / C03_sound_after_history are theorems about the layer-B model for every history of API calls (all 26 operations, every outcome incl. refusals, DiskFull and NotEnoughSpace half-way failures): the global invariant fs_inv - directory tree over the raw disk, unique names, clean tail after the end marker, dot entries, chains in range / acyclic / end-marked / never through free-reserved-bad entries / pairwise disjoint / long enough for the size, pending chains of open files - holds after every call. Scope stated in the theorems: one mounted volume, no device faults, names outside the recorded class D29, fewer than 2^32 handle generations. The tie to the crate is the trace-exact correspondence; the extracted decider fs_inv_b (sound: fs_inv_b_sound) and the independent python checker both run on the implementation's images",
     "C04": "C04_history is a theorem about the layer-B model for every history of API calls: the complete device-write list lies in the regions of the volume (FAT copies, FAT16 root region, data area, FAT32 information sector; C04_regions_not_outside: never MBR, boot sector, other partition, past the last cluster); C04_mount_layout / C04_open_volume_layout derive the region map from the checks of the mount code; per-call byte frames (slot, FAT entry, high nibble, info-sector fields, data range) are the C04_*_frame theorems. Recorded finding: the partition size is not compared with the BPB total (D38)",
     "C05": "C05_history (after any history of API calls with no file left open, in-use clusters = clusters on the chains of the live tree), C05_used_is_tree_and_pending (with open files: plus their pending chains), C05_delete_frees, C05_capacity (exactly free_entries allocations succeed, then NotEnoughSpace with nothing changed), C05_fill_free_refill for every number of cycles, and mgr_write_spec (Ok / DiskFull with exactly the stored prefix readable / NotEnoughSpace) are theorems about the layer-B model for all inputs",
-    "C06": "C06_iterate / C06_find / C06_find_listed / C06_open_dir are complete theorems about the layer-B model: for every directory contents, every chain (FAT16 root, FAT16/FAT32 chains) and every state with a working device and a coherent cache, the listing is exactly the valid slots before the end marker in on-disk order, lookup is the first match, open_dir succeeds exactly for listed directory entries and designates the entry's cluster (0 -> root, \".\" -> the same directory)",
+    "C06": "C06_iterate_lfn_entries / _slots / _delivered / _listing / _total (VolumeManager::iterate_dir_lfn reports exactly the entries of iterate_dir, sees exactly the delivered slots of the directory, its long names are LfnModel.listing of those slots - so the C17 listing theorems apply to the file-system model - and it never panics from a state of the invariant) and C06_iterate / C06_find / C06_find_listed / C06_open_dir are complete theorems about the layer-B model: for every directory contents, every chain (FAT16 root, FAT16/FAT32 chains) and every state with a working device and a coherent cache, the listing is exactly the valid slots before the end marker in on-disk order, lookup is the first match, open_dir succeeds exactly for listed directory entries and designates the entry's cluster (0 -> root, \".\" -> the same directory)",
     "C07": "the decision tables of open_file_in_dir (six modes x missing/file/read-only/directory/already-open/dot names), delete_file_in_dir, make_dir_in_dir, open_dir and write on a read-only handle are theorems about the layer-B model for every state in which the handles resolve; every refusal leaves the state of the lookup (reads only)",
-    "C08": "handle freshness inside the 2^32 window (with its refutation beyond, known finding), stale-handle rejection without effect for every call (open_root_dir refuted: known finding), limits as an invariant of every op with the matching errors, volume rules, closing frees exactly one slot, truthful open-handle query, LockError without any effect for every result-returning op while the lock is held - all theorems about the layer-B model for all states and ops",
+    "C08": "wrapper layer: C08x_handles_ok_step (every extended operation draws at most one id), drops = closes, File::length/offset/is_eof return the record's values on an open handle and PANIC on a stale handle or under the lock (C08_wrapper_stale_panics / _locked_panics: an observation, these calls return no Result); handle freshness inside the 2^32 window (with its refutation beyond, known finding), stale-handle rejection without effect for every call (open_root_dir refuted: known finding), limits as an invariant of every op with the matching errors, volume rules, closing frees exactly one slot, truthful open-handle query, LockError without any effect for every result-returning op while the lock is held - all theorems about the layer-B model for all states and ops",
 }
 
 def finish(run, env, pid, rule, extra=None, known_filter=None):
@@ -300,6 +300,57 @@ def common_tail(run, env, theorems, strict=False, oracle=None, what="property vi
         run.notes.append("%d scripts also differ between model and implementation" % len(dis))
     run.coverage["disagreements"] = len(dis)
 
+def truncate_reuse_scripts(env, rng, count):
+    """directed: a truncating open of a file whose first cluster is numbered ABOVE a free cluster (an earlier file was
+    deleted), then writes through the truncated handle, a third file written meanwhile, everything read back"""
+    hx = fsgen.hx
+    for j in range(count):
+        geo = fsgen.geometry(rng, None, ["f16_min", "f32_min", "f16_spc2", "f32_root5", "f16_spc8"])
+        img, meta = fsgen.build_image(rng, geo, populate=1)
+        path, dev = env.new_image(img, "trunc%d" % j)
+        meta = dict(meta); meta["dev0"] = dev
+        bpc = meta["spc"] * 512
+        n1, n2 = rng.choice([1, bpc, bpc + 1, 3 * bpc]), rng.choice([bpc - 1, bpc + 7, 2 * bpc, 2 * bpc + 1])
+        mode = rng.choice(["RWT", "RWCT"])
+        ops = ["openvol %d -> $v" % meta["slot"], "openroot $v -> $r",
+               "open $r %s RWC -> $a" % hx("TA.DAT"), "write $a %d 1" % n1, "close $a",
+               "open $r %s RWC -> $b" % hx("TB.DAT"), "write $b %d 2" % n2, "close $b",
+               "delete $r %s" % hx("TA.DAT"),
+               "open $r %s %s -> $t" % (hx("TB.DAT"), mode), "write $t %d 3" % rng.choice([700, bpc, 2 * bpc + 5]), "len $t",
+               "open $r %s RWC -> $c" % hx("TC.DAT"), "write $c %d 4" % (2 * bpc + 9), "close $c",
+               "seekstart $t 0", "read $t 70000", "write $t %d 5" % (bpc + 3), "close $t",
+               "open $r %s RO -> $q" % hx("TB.DAT"), "read $q 70000", "close $q",
+               "open $r %s RO -> $q2" % hx("TC.DAT"), "read $q2 70000", "close $q2", "iter $r"]
+        env.add_script("truncreuse%03d" % j, path, (1, 4, 4), ops, 5000, (), meta)
+
+def wrapper_scripts(env, rng, count, weights=None, nops=(20, 45), **kw):
+    """scripts over the extended alphabet of FsExt.xop: iterate_dir_lfn at manager level, Drop of the RAII wrappers
+    (dropfile / dropdir), Directory::change_dir, File::length / offset / is_eof (the panicking queries), mixed with the
+    base operations; half of them run through the wrappers (RAII twins), images carry long-name runs"""
+    w = dict(iterlfn=6, dropfile=4, dropdir=3, chdir=5, wquery=4, open=8, write=6, read=4, seek=2, close=2, closedir=1, opendir=3,
+             mkdir=2, delete=2, iter=3, find=2, flush=2, bad=2, remount=0, io=1, query=1)
+    w.update(weights or {})
+    prof = fsgen.profile(weights=w, **kw)
+    F.std_scenarios(env, rng, count, prof, nops=nops, per_image=2)
+    hx = fsgen.hx
+    for j, gname in enumerate(["f16_min", "f32_min"][: max(1, min(2, count // 4))]):
+        geo = fsgen.geometry(rng, None, [gname])
+        img, meta = fsgen.build_image(rng, geo, populate=1)
+        v = meta["vol"]
+        meta["files"]["/LONG~1.TXT"] = v.add_file(v.root, "LONG~1.TXT", b"long", lfn="A rather long file name \u00e9\u4e2d\U0001F600.txt")
+        meta["files"]["/TWO~1.TXT"] = v.add_file(v.root, "TWO~1.TXT", b"2", lfn="second long name.txt")
+        path, dev = env.new_image(img, "wrap%d" % j)
+        meta = dict(meta); meta["dev0"] = dev
+        ops = ["openvol %d -> $v" % meta["slot"], "openroot $v -> $r", "iterlfn $r 255", "iterlfn $r 20", "iterlfn $r 0", "iter $r",
+               "open $r %s RWA -> $f" % hx("A.TXT"), "wlen $f", "woff $f", "weof $f", "write $f 700 3", "woff $f", "dropfile $f",
+               "open $r %s RO -> $g" % hx("A.TXT"), "read $g 50", "wlen $g", "chdir $r %s -> $r" % hx("SUB"), "iterlfn $r 300", "iter $r",
+               "chdir $r %s -> $r" % hx("NOPE"), "chdir $r %s -> $r" % hx("A.TXT"), "chdir $r %s -> $r" % hx(".."), "iter $r",
+               "opendir $r %s -> $d2" % hx("SUB"), "dropdir $d2", "iterlfn $d2 10", "dropdir $d2", "dropfile $g", "dropfile $g",
+               "delete $r %s" % hx("LONG~1.TXT"), "open $r %s RWC -> $n" % hx("NEW.TXT"), "dropfile $n", "iterlfn $r 255",
+               "hasopen", "dropdir $r", "hasopen", "closevol $v"]
+        env.add_script("wrapdirected", path, (1, 4, 4), ops, 5000, (), meta)
+        env.add_script("wrapdirected", path, (1, 4, 4), ops, 5000, (), meta, raii=True)
+
 # ============================================================================ C01
 def check_C01(run, replay=None):
     env = F.Env(run, "C01.v")
@@ -313,6 +364,8 @@ def check_C01(run, replay=None):
     F.std_scenarios(env, rng, n, prof, nops=(25, 70))
     F.std_scenarios(env, rng, n // 6, prof, nops=(25, 70), img_kw=dict(second_partition=True), limits=(2, 4, 4))
     corpus(env, rng, {"maxsize"})
+    truncate_reuse_scripts(env, rng, 6 if run.tier == "quick" else 30)
+    wrapper_scripts(env, rng, max(n // 6, 8), weights=dict(write=10, read=8, seek=5, wquery=6, dropfile=5, iterlfn=1, chdir=2))
     env.run_all()
     bad = 0
     for sc in env.scripts:
@@ -436,6 +489,9 @@ def check_C02(run, replay=None):
     # volumes that fill up during a write: what was accepted before DiskFull must be on the medium after close
     full = fsgen.profile(weights=dict(write=16, open=10, close=8, flush=3, delete=2, mkdir=1, read=1, seek=1, bad=0, remount=0, io=1), quiesce=True)
     F.std_scenarios(env, rng, max(n // 6, 6), full, nops=(12, 30), img_kw=dict(free_left=3), per_image=3)
+    truncate_reuse_scripts(env, rng, 4 if run.tier == "quick" else 20)
+    # Drop = close ignoring the error: dropped files must be on the medium exactly like closed ones
+    wrapper_scripts(env, rng, max(n // 6, 8), weights=dict(write=12, open=10, dropfile=8, close=2, flush=2, iterlfn=1, chdir=2, wquery=1, read=1), quiesce=True)
     env.run_all(writes=True)
     bad = 0
     for sc in env.scripts:
@@ -692,7 +748,7 @@ def check_C05(run, replay=None):
     F.std_scenarios(env, rng, n // 4, prof, nops=(20, 50), img_kw=dict(free_left=3))
     # fill / delete / refill cycles on near-full volumes
     for j in range(n // 4):
-        geo = fsgen.geometry(rng, None, ["f16_min", "f16_exact", "f16_slack", "f32_min", "f32_exact", "f16_spc8", "f32_root5"])
+        geo = fsgen.geometry(rng, None, ["f16_min", "f16_exact", "f16_slack", "f32_min", "f32_exact", "f16_spc8", "f32_root5", "f16_root500", "f16_root500"])
         k = rng.below(5)
         img, meta = fsgen.build_image(rng, geo, populate=1, free_left=k)
         path, dev = env.new_image(img, "cyc%d" % j)
@@ -765,6 +821,7 @@ def check_C06(run, replay=None):
     F.std_scenarios(env, rng, max(n // 8, 6), ro, nops=(12, 30), want=["f32_root5", "f32_oor", "f16_spc8", "f16_spc2", "f16_spc128"], img_kw=dict(stale_tail=True), per_image=2)
     corpus(env, rng, {"e5-name", "lfn-match"})
     grow_scripts(env, rng, max(n // 10, 4), big=True)
+    wrapper_scripts(env, rng, max(n // 4, 12), weights=dict(iterlfn=12, chdir=8, iter=6, find=5, opendir=5, delete=4, open=6, write=2, read=0, seek=0, wquery=1))
     env.run_all(writes=True)
     bad = 0
     for sc in env.scripts:
@@ -778,6 +835,26 @@ def check_C06(run, replay=None):
     common_tail(run, env, run.coverage.get("theorems", []), oracle=c06_oracle, what="listing/lookup disagrees with the live entries on the medium",
                 known=lambda p: "e5-name" if "0xE5" in p else None)
     return finish(run, env, "C06", "listing/lookup/open-dir on generated directories (live, deleted, LFN, label slots; 1-6 clusters, fragmented; FAT16 roots of 16/32/511/512 entries; FAT32 roots at cluster 2 and 5) before and after create/delete/mkdir; oracle = independent reader's live-entry list of the same directory on the implementation's medium at that moment")
+
+_LFN_EXE = [None]
+def lfn_spec_listing(nbytes, slots_hex):
+    """[(name11 hex, long name hex or None, in the known class)] from the extracted LfnSpec.spec_listing (group lfn)"""
+    if _LFN_EXE[0] is None:
+        _LFN_EXE[0] = V.ocaml_build("lfn")
+    p = subprocess.run([_LFN_EXE[0]], input="G %d %s\n" % (nbytes, " ".join(slots_hex)), stdout=subprocess.PIPE, text=True, timeout=120)
+    res = []
+    for l in p.stdout.split("\n"):
+        t = l.split()
+        if not t:
+            continue
+        if t[0] == "E":
+            if t[3] == "nolfn":
+                res.append((t[1], None, False))
+            else:
+                res.append((t[1], t[3][4:], len(t) > 4 and t[4] == "K"))
+        elif t[0] == "END":
+            return res if t[1] == "ok" else None
+    return None
 
 def dir_blocks_of(dev, g, cluster):
     if cluster in ("root", 0xFFFFFFFC):
@@ -805,14 +882,28 @@ def c06_oracle(sc):
             vols[bind] = int(op[1])
         elif op[0] == "openroot" and okk and bind and vols.get(op[1]) == sc["meta"]["slot"]:
             dslot[bind] = "root"
-        elif op[0] == "closedir" and okk:
+        elif op[0] in ("closedir", "dropdir") and okk:
             dslot.pop(op[1], None)
         elif op[0] == "remount":
             dslot.clear(); vols.clear()
-        elif op[0] in ("iter", "find", "opendir") and op[1] in dslot:
+        elif op[0] in ("iter", "find", "opendir", "chdir", "iterlfn") and op[1] in dslot:
             blocks = dir_blocks_of(dev, g, dslot[op[1]])
             live = [e for e in fatck.read_dir(dev, g, blocks, [], "") if not e.is_lfn]
-            if op[0] == "iter" and okk:
+            if op[0] == "iterlfn" and okk:
+                # long names: the extracted Coq specification (LfnSpec.spec_listing) on the raw slots of this directory
+                raw = b"".join(fatck.blk(dev, b) for b in blocks)
+                slots_hex = [raw[i:i + 32].hex() for i in range(0, len(raw), 32)]
+                want_names = lfn_spec_listing(int(op[2]), slots_hex)
+                got_names = [(c[0], (c[9] if c[8] == "lfn" and len(c) > 9 else "") if c[8] == "lfn" else None) for c in tr.cb[k]]
+                if want_names is not None:
+                    if len(want_names) != len(got_names):
+                        out.append("op %d: iterate_dir_lfn reported %d entries, the specification lists %d" % (k, len(got_names), len(want_names)))
+                    else:
+                        for i, ((gn, gl), (wn, wl, wk)) in enumerate(zip(got_names, want_names)):
+                            if gn != wn or (gl != wl and not wk):
+                                out.append("op %d: iterate_dir_lfn entry %d is (%s, %s), the specification gives (%s, %s)" % (k, i, gn, gl, wn, wl))
+                                break
+            if op[0] in ("iter", "iterlfn") and okk:
                 got = [(c[0], int(c[1]), int(c[2]), int(c[3]), int(c[6]), int(c[7])) for c in tr.cb[k]]
                 want = []
                 for e in live:
@@ -824,12 +915,12 @@ def c06_oracle(sc):
                     d = next((i for i, (a, b) in enumerate(zip(got, want)) if a != b), min(len(got), len(want)))
                     out.append("op %d: listing has %d entries, the directory holds %d live entries; first difference at position %d: got %s want %s"
                                % (k, len(got), len(want), d, got[d] if d < len(got) else None, want[d] if d < len(want) else None))
-            elif op[0] in ("find", "opendir"):
+            elif op[0] in ("find", "opendir", "chdir"):
                 nm = O.unhexname(op[2])
                 s11 = O.sfn_parse(nm)
                 if s11 is None:
                     continue
-                if op[0] == "opendir" and s11 == b".".ljust(11):
+                if op[0] in ("opendir", "chdir") and s11 == b".".ljust(11):
                     if okk and bind:
                         dslot[bind] = dslot[op[1]]
                     continue
@@ -1066,6 +1157,7 @@ def check_C08(run, replay=None):
     corpus(env, rng, {"root-dir-stale-volume"})
     id_offset_scripts(env, rng, 5 if run.tier == "quick" else 20)
     two_volume_scripts(env, rng, 3 if run.tier == "quick" else 12)
+    wrapper_scripts(env, rng, max(n // 6, 8), weights=dict(dropfile=6, dropdir=6, chdir=6, wquery=4, open=8, opendir=6, openroot=3, bad=5, iterlfn=2))
     env.run_all()
     bad = 0
     for sc in env.scripts:
@@ -1144,6 +1236,39 @@ def c08_oracle(sc):
                 else: live["d"].discard(arg); dir_vol.pop(arg, None)
             elif e != "BadHandle":
                 out.append("op %d: close_dir on a stale handle returned %s" % (k, r[:2]))
+        elif kind == "dropdir":          # impl Drop for Directory: frees the slot, a stale handle has no effect
+            if arg in live["d"]:
+                live["d"].discard(arg); dir_vol.pop(arg, None)
+            elif tr.dev[k]:
+                out.append("op %d: dropping a Directory with a stale handle caused %d device calls" % (k, len(tr.dev[k])))
+        elif kind == "dropfile":         # impl Drop for File
+            if arg in live["f"]:
+                live["f"].discard(arg); file_vol.pop(arg, None)
+            elif tr.dev[k]:
+                out.append("op %d: dropping a File with a stale handle caused %d device calls" % (k, len(tr.dev[k])))
+        elif kind == "dropvol":          # impl Drop for Volume: closes iff nothing on the volume is open
+            inuse = any(v == arg for v in dir_vol.values()) or any(v == arg for v in file_vol.values())
+            if arg in live["v"] and not inuse and not tr.faulted(k):
+                live["v"].discard(arg); vol_idx.pop(arg, None)
+            elif arg not in live["v"] and tr.dev[k]:
+                out.append("op %d: dropping a Volume with a stale handle caused %d device calls" % (k, len(tr.dev[k])))
+        elif kind == "chdir":            # Directory::change_dir = open_dir + close_dir(old): the number of open directories is unchanged
+            if okk:
+                if len(live["d"]) >= lim[1]: out.append("op %d: change_dir succeeded with the directory table full (open_dir must come first)" % k)
+                if arg not in live["d"]: out.append("op %d: change_dir succeeded on a stale handle" % k)
+                live["d"].discard(arg); v0 = dir_vol.pop(arg, None)
+                live["d"].add(newh); dir_vol[newh] = v0
+            elif r[0] == "panic":
+                out.append("op %d: change_dir panicked" % k)
+            elif len(live["d"]) >= lim[1] and e != "TooManyOpenDirs":
+                out.append("op %d: change_dir at the limit returned %s" % (k, e))
+            elif arg not in live["d"] and len(live["d"]) < lim[1] and (e != "BadHandle" or tr.dev[k]):
+                out.append("op %d: change_dir on a stale handle returned %s (device calls %d)" % (k, e, len(tr.dev[k])))
+        elif kind in ("wlen", "woff", "weof"):
+            if arg in live["f"] and r[0] == "panic":
+                out.append("op %d: File::%s panicked on an open file" % (k, kind[1:]))
+            elif arg not in live["f"] and r[0] != "panic":
+                out.append("op %d: File::%s on a stale handle returned %s (the wrapper's expect should have fired)" % (k, kind[1:], r[:3]))
         elif kind == "open":
             if okk:
                 if len(live["f"]) >= lim[2]: out.append("op %d: file opened beyond the limit %d" % (k, lim[2]))
@@ -1161,7 +1286,7 @@ def c08_oracle(sc):
         elif kind in ("flush", "read", "write", "len", "off", "eof", "seekstart", "seekend", "seekcur"):
             if arg not in live["f"] and (e != "BadHandle" or tr.dev[k]):
                 out.append("op %d: %s on a stale file handle returned %s (device calls %d)" % (k, kind, r[:2], len(tr.dev[k])))
-        elif kind in ("find", "delete", "mkdir") or (kind == "iter" and len(op) == 2):
+        elif kind in ("find", "delete", "mkdir", "iterlfn") or (kind == "iter" and len(op) == 2):
             if arg not in live["d"]:
                 full = kind == "mkdir" and len(live["d"]) >= lim[1]
                 if not full and (e != "BadHandle" or tr.dev[k]):
@@ -1207,6 +1332,10 @@ def check_C09(run, replay=None):
     prof = fsgen.profile(weights=dict(write=12, open=12, close=8, flush=6, delete=5, mkdir=5, read=1, seek=2, bad=1, closevol=1, remount=0, io=0),
                          max_write=3000)
     F.std_scenarios(env, rng, n, prof, nops=(20, 45), want=["f16_min", "f16_exact", "f16_spc8", "f16_spc2", "f32_min", "f32_root5", "f16_slack"])
+    # information sectors whose next-free hint names a cluster in use (what a power cut between an allocation and the next
+    # information-sector write leaves), and managers dropped without closing (remount) in the middle of a history
+    stale = fsgen.profile(weights=dict(write=12, open=12, close=8, flush=6, delete=4, mkdir=6, read=2, seek=2, bad=0, closevol=0, remount=2, io=0), max_write=3000)
+    F.std_scenarios(env, rng, max(n // 4, 8), stale, nops=(20, 45), want=["f32_staleused", "f32_stalehigh", "f32_stalelow"], per_image=2)
     # FAT32 volumes whose only free clusters are numbered above 65535 (both halves of the start cluster matter)
     hi = fsgen.profile(weights=dict(mkdir=10, opendir=8, open=12, write=10, close=8, flush=4, delete=3, read=1, seek=1, bad=0, remount=0, io=0), max_write=1500)
     F.std_scenarios(env, rng, max(n // 5, 6), hi, nops=(20, 40), want=["f32_root5"], img_kw=dict(free_left=12), per_image=3)
@@ -1343,7 +1472,7 @@ def check_C10(run, replay=None):
     n = tier_n(run, 40, 500)
     prof = fsgen.profile(weights=dict(write=10, open=14, close=6, flush=4, delete=5, mkdir=8, read=0, seek=1, bad=1, closevol=1, remount=0, io=0, iter=0, find=0, query=0),
                          max_write=2500)
-    F.std_scenarios(env, rng, n // 2, prof, nops=(15, 35), img_kw=dict(dirty_free=48), want=["f16_min", "f16_exact", "f16_spc2", "f32_min", "f32_root5", "f16_slack"])
+    F.std_scenarios(env, rng, n // 2, prof, nops=(15, 35), img_kw=dict(dirty_free=48), want=["f16_min", "f16_exact", "f16_spc2", "f32_min", "f32_root5", "f16_slack", "f32_staleused", "f16_root500"])
     F.std_scenarios(env, rng, n // 2, prof, nops=(15, 35), img_kw=dict(dirty_free=48, big_dir=True), want=["f16_min", "f16_spc2", "f32_min", "f32_root5"])
     grow_scripts(env, rng, max(n // 5, 4), dirty=64)
     env.run_all(writes=True)
